@@ -98,7 +98,10 @@ Fixpoint seq_segs (s : inner) (must : list N) (segs : list bseg) : inner * list 
   | [] => (s, must)
   | g :: rest =>
       let s' := i_run s (seq_calls (seg_all_ops g)) in
-      seq_segs {| ks := ks s'; pend := [] |} (must ++ pend s') rest
+      (* keys already kept before the batch are advertised by the schedule
+         (c17_buffered_advertises_all_partial: "... or kept before the batch") *)
+      let owed := filter (fun k => negb (memN k (ks s))) (pend s') in
+      seq_segs {| ks := ks s'; pend := [] |} (must ++ owed) rest
   end.
 
 Definition bufreal_verdict (n : nat) (ks0 : list N) (segs : list bseg) (advertised kept : list N) (panicked : bool) : nat :=
